@@ -117,6 +117,9 @@ func (l *Link) Read(p []byte) (int, error) {
 	}
 	end := l.limit()
 	avail := end - l.Pos
+	if avail < 0 {
+		avail = 0 // a Seek went past the fault position: nothing more is delivered
+	}
 	n := len(p)
 	if bound > 0 && n > bound {
 		n = bound
@@ -129,7 +132,7 @@ func (l *Link) Read(p []byte) (int, error) {
 	}
 	copy(p, l.Data[l.Pos:l.Pos+n])
 	l.Pos += n
-	atFault := l.Fault != nil && !l.faultDone && l.Pos == l.Fault.At && l.Fault.At <= len(l.Data)
+	atFault := l.Fault != nil && !l.faultDone && l.Pos >= l.Fault.At && l.Fault.At <= len(l.Data)
 	if atFault && (n == 0 || l.Fault.Partial) {
 		// deliver the failure now
 		err := ErrorByName(l.Fault.Err)
